@@ -6,7 +6,7 @@ NOT_APPLICABLE = {
     "C16": "The token-tiling invariant is a pure function of the input string observed on a deterministic token stream; no state, schedule or fault is involved.",
 }
 PENDING = {p: "not claimed yet: the simulated scenario for this property is designed (DESIGN.md section 5) but its check is still being built" for p in
-           ["C08", "C12", "C13", "C19", "C20"]}
+           ["C08", "C13", "C19", "C20"]}
 
 TEXT = {
     "C04": {
@@ -68,5 +68,11 @@ TEXT = {
         "design_ref": "DESIGN.md section 5 C05",
         "level_text": "Seeded exploration: trees are subsets of a 16-path pool (hidden files/dirs at top level and nested, names sorting before/after the dot entries, empty dirs) x 22 patterns as dependency and output patterns; the tree evolves for 1-4 steps and every state is expanded twice through fresh file.New + SpokFile.Run; regular files of the expansion must equal the reference matcher's answer and be identical on re-expansion. End to end the same meaning is exercised inside cachehist (C01/C02 with glob dependencies).",
         "level_note": "Trusted: the reference matcher (60 lines, own implementation) for the generator's pattern language; os.Lstat to tell regular files from directories.",
+    },
+    "C12": {
+        "technique": "deterministic simulation: seeded project trees and output declarations, removal-veto/fault seam, full before/after disk snapshots as oracle",
+        "design_ref": "DESIGN.md section 5 C12",
+        "level_text": "Seeded exploration of project trees x output declarations (literal, named via string/join variables, globs, degenerate values '', '.', '..', the project directory, 'spokfile') x with/without a clean task x with/without an earlier run x root/nested cwd x optional EACCES on the removal of one designated path; a full snapshot of $HOME before and after must differ exactly by the designated set and the cache directory on success, by a subset of it on failure; any attempt to remove the spokfile, its directory, an ancestor or a path outside the sandbox is vetoed before it happens and reported. Sampling, not enumeration.",
+        "level_note": "Trusted: every removal goes through the simhook.Remove seam; snapshot comparison (path, mode, content); the reference glob matcher.",
     },
 }
